@@ -189,12 +189,16 @@ def _run_case(case, cfg, clock):
         except Exception as e:  # noqa: every exception kind is an observation
             ev["exc"] = type(e).__name__
         ev["ops"] = termbytes.ops(stream.fetch()[mark:])
-        for chunk in stream.chunks[nchunks:]:
+        for chunk in stream.chunks[nchunks:]:  # one write = one frame ...
             text = _ESC.sub("", chunk)
             if cfg["mode"] == "section" and text.endswith("\n"):
                 text = text[:-1]  # a section output terminates what it writes
             if text.strip(" \n"):
                 ev["frames"].append(project_frame(text, pats))
+        if not all(f["ok"] for f in ev["frames"]):  # ... unless the call put one frame on the stream in pieces
+            whole = project_frame(_ESC.sub("", "".join(stream.chunks[nchunks:])).strip("\n"), pats)
+            if whole["ok"]:
+                ev["frames"] = [whole]
         try:
             ev["progress"], ev["maxsteps"] = int(bar.get_progress()), int(bar.get_max_steps())
         except Exception:  # noqa
